@@ -53,6 +53,7 @@ extern void remove_destructed_objects (void);
 extern int verif_load_object_depth (void);
 extern object_t *verif_restrict_destruct (void);
 extern int verif_command_giver_stack_depth (void);
+extern int num_varargs;
 extern void reset_load_object_limits (void);
 extern void reset_destruct_object_limits (void);
 
@@ -103,12 +104,12 @@ static const char *vital_name (object_t * ob, int which)
 
 static void snapshot (char *buf, size_t n)
 {
-  snprintf (buf, n, "sp=%ld csp=%ld cg=%s co=%s po=%s prog=%s ct=%d fp=%ld pc=%s fio=%d vio=%d ctx=%d ld=%d rd=%s cgs=%d qv=%s mn=%s sn=%s",
+  snprintf (buf, n, "sp=%ld csp=%ld cg=%s co=%s po=%s prog=%s ct=%d fp=%ld pc=%s fio=%d vio=%d ctx=%d ld=%d rd=%s cgs=%d qv=%s nva=%d mn=%s sn=%s",
             (long) (sp - start_of_stack), (long) (csp - control_stack), oname (command_giver), oname (current_object),
             oname (previous_ob), current_prog ? current_prog->name : "0", caller_type,
             fp ? (long) (fp - start_of_stack) : -1L, pc ? "set" : "null", function_index_offset, variable_index_offset,
             verif_error_context_depth (), verif_load_object_depth (), oname (verif_restrict_destruct ()),
-            verif_command_giver_stack_depth (), last_verb ? "set" : "0", vital_name (master_ob, 0), vital_name (simul_efun_ob, 1));
+            verif_command_giver_stack_depth (), last_verb ? "set" : "0", num_varargs, vital_name (master_ob, 0), vital_name (simul_efun_ob, 1));
 }
 
 /* ---- capture of the VL lines written to stderr (a regular file in the case child) ---------------- */
@@ -261,6 +262,7 @@ static int renormalise (void)
   current_object = base_co;
   previous_ob = base_po;
   current_prog = base_prog;
+  num_varargs = 0;		/* (interpreter scratch state, printed by the snapshot taken just before) */
   return changed;
 }
 
